@@ -254,6 +254,9 @@ func ParentMain(prop, tier string, replay string) int {
 				return
 			}
 			// child died without a result
+			if spec.Race {
+				collectRaces(agg, wd, i)
+			}
 			last := lastLine(filepath.Join(wd, "begin.log"))
 			stderr := tail(filepath.Join(wd, "stderr.txt"), 6000)
 			if timedOut {
